@@ -40,7 +40,7 @@ ASSUMPTIONS = [
 # what each partial claim leaves undecided (repeated in the evidence; details in DESIGN.md section 5)
 PROP_ASSUMPTIONS = {
     "C01": ["serial read segmentation (bytes_read) is checked natively and exhaustively for short streams only (bounded, not proved)"],
-    "C05": ["parsers outside the symbolic reach (1030, 2411, 0418, 3220) only have a bounded native stand-in; 31DA is decided modularly (field decoders under their own contracts; parse_capabilities by exhaustive native enumeration of its 65 536 inputs)"],
+    "C05": ["parsers outside the symbolic reach (0418, 3220) only have a bounded native stand-in; 31DA, 1030 and 2411 are decided modularly (31DA: 18 field decoders under their own contracts, parse_capabilities by exhaustive native enumeration of its 65 536 inputs; 1030: the inner per-parameter decoder under its own contract; 2411: hex_to_temp / hex_to_percent by their C04 contracts, the 23-byte forms only in the thorough tier)"],
     "C07": ["asyncio.wait_for honours its timeout and the loop keeps running (assumed): 'never hangs' is that contract plus the structural obligation that send_cmd suspends only there",
             "episodes of at most 3 outside events with one or two callers (bounded); transport write failures, the impersonation notice and more than two concurrent callers are not explored"],
     "C09": ["episodes of at most 3 outside events with one or two callers, from an idle sender (bounded in depth; nothing is claimed about longer episodes)",
